@@ -230,31 +230,29 @@ func findRoute(
 			return "", log, false
 		}
 
-		// Remove selected backend from list to avoid retrying it
-		for i, backend := range tryBackends {
-			normalizedBackend, err := netutil.Parse(backend, src.RemoteAddr().Network())
+		// Remove the selected backend from the list to avoid retrying it. All
+		// spellings of the same backend (case, default port, duplicates) are
+		// removed; an address that cannot be parsed is compared as is, so that it
+		// is removed as well instead of being selected forever.
+		canonical := func(addr string) string {
+			parsed, err := netutil.Parse(addr, src.RemoteAddr().Network())
 			if err != nil {
-				continue
+				return addr
 			}
-			normalizedAddr := normalizedBackend.String()
-			if _, port := netutil.HostPort(normalizedBackend); port == 0 {
-				normalizedAddr = net.JoinHostPort(normalizedBackend.String(), "25565")
+			normalized := parsed.String()
+			if _, port := netutil.HostPort(parsed); port == 0 {
+				normalized = net.JoinHostPort(normalized, "25565")
 			}
-
-			normalizedSelected, err := netutil.Parse(backendAddr, src.RemoteAddr().Network())
-			if err != nil {
-				continue
-			}
-			selectedAddr := normalizedSelected.String()
-			if _, port := netutil.HostPort(normalizedSelected); port == 0 {
-				selectedAddr = net.JoinHostPort(normalizedSelected.String(), "25565")
-			}
-
-			if normalizedAddr == selectedAddr {
-				tryBackends = append(tryBackends[:i], tryBackends[i+1:]...)
-				break
+			return strings.ToLower(normalized)
+		}
+		selected := canonical(backendAddr)
+		remaining := make([]string, 0, len(tryBackends))
+		for _, backend := range tryBackends {
+			if canonical(backend) != selected {
+				remaining = append(remaining, backend)
 			}
 		}
+		tryBackends = remaining
 
 		return backendAddr, newLog.WithValues("backendAddr", backendAddr), true
 	}
